@@ -66,4 +66,12 @@ CompactLaw == op.name = "compact" => /\ NoCompleteGroup(ToSet(ws)) /\ IsAntichai
                                      /\ Len(ws) = Cardinality(ToSet(ws))
 \* uncompact yields one level only
 UncompactLaw == op.name = "uncompact" => \A i \in 1..Len(ws) : ws[i].r = op.x
+\* ---- the covered region (finest level of the bounded model) under every operation ----
+CoverOf(s) == Cover(ToSet(s), MaxR)
+CoverLemma == Cover(CanonCover(ToSet(ws)), MaxR) = CoverOf(ws)            \* the reference compaction keeps the region
+CanonIdempotent == op.name = "compact" => Canon(ToSet(ws)) = ToSet(ws)
+CompactKeepsCover == [][op'.name = "compact" => CoverOf(ws') = CoverOf(ws)]_vars
+SameCoverOps == [][op'.name \in {"refine", "refineto", "uncompact", "dup", "rotate", "uncompactbad"} => CoverOf(ws') = CoverOf(ws)]_vars
+CoarsenGrows == [][op'.name = "coarsen" => CoverOf(ws) \subseteq CoverOf(ws')]_vars
+DropShrinks == [][op'.name = "drop" => CoverOf(ws') \subseteq CoverOf(ws)]_vars
 =============================================================================
